@@ -4,13 +4,9 @@
 //! crate-private building blocks so that an external harness can drive them directly,
 //! and keeps a process-wide log of hand-off events that the driver appends to.
 
-pub use crate::driver::utils::bichannel;
 pub use crate::driver::utils::shared_result;
-pub use crate::driver::utils::BiChannelEndpoint;
-pub use crate::driver::utils::SendError;
 pub use crate::driver::utils::SharedResultGet;
 pub use crate::driver::utils::SharedResultSet;
-pub use crate::driver::utils::TrySendError;
 
 /// Event log of the hand-off of peer-opened streams.
 pub mod log {
